@@ -95,9 +95,16 @@ fn child(sc_path: &str, out_path: &str) -> i32 {
     *JOURNAL.lock().unwrap() = Some(format!("{out_path}.panics"));
     let _ = std::fs::remove_file(format!("{out_path}.panics"));
     let t0 = Instant::now();
-    // references, computed once outside the model
-    let st = scen::reference_st(&sc);
-    let fw = scen::reference_framewise(&sc);
+    // references, computed once. The subject's thread-local scratch is loom storage in this build, so
+    // even the sequential paths have to run inside a (single-thread, single-execution) model.
+    let refs: Arc<Mutex<Option<(RunResult, Option<Vec<u8>>, (usize, usize))>>> = Arc::new(Mutex::new(None));
+    {
+        let (r2, sc2) = (Arc::clone(&refs), sc.clone());
+        loom::model(move || {
+            *r2.lock().unwrap() = Some((scen::reference_st(&sc2), scen::reference_framewise(&sc2), scen::predicted_subframes(&sc2)));
+        });
+    }
+    let (st, fw, predicted) = refs.lock().unwrap().take().expect("reference run produced no result");
     let expected = model::expected(&sc.script);
     if scen::outcome_of(&st, sc.nblocks()) != expected {
         write_result(out_path, &json!({"scenario": sc, "verdict": "machinery", "what": format!("single-thread reference {:?} disagrees with the script's expected outcome {:?}", scen::outcome_of(&st, sc.nblocks()), expected)}));
@@ -208,7 +215,7 @@ fn child(sc_path: &str, out_path: &str) -> i32 {
                     "traces_validated": g.validated, "conformance_failures": g.conformance_failures,
                     "first_conformance_failure": g.first_conformance_failure, "sample_traces": g.sample_traces,
                     "max_events": g.max_events, "outcomes": g.outcomes, "wall_s": wall,
-                    "expected": format!("{expected:?}"),
+                    "expected": format!("{expected:?}"), "lpc_subframes": predicted.0, "fixed_subframes": predicted.1,
                 }),
             );
             0
@@ -262,7 +269,9 @@ fn mk(name: &str, wcfg: usize, env: Option<&str>, wexp: usize, script: Vec<Read>
         ch: 2,
         // out-of-width samples can be expressed in packed bytes only when the width is not a whole number of bytes
         bps: if byte && faulty { 12 } else { 16 },
-        bs: 32,
+        // 64 is the smallest block size for which the encoder uses prediction (and with it its
+        // thread-local scratch: window cache, LPC estimator, Rice search buffers)
+        bs: 72,
         preemption_bound: pb,
         fill_at_end: true,
         process_cap: 0,
@@ -279,7 +288,11 @@ fn c05_scenarios(thorough: bool) -> Vec<Scenario> {
                 if byte && f != 2 {
                     continue;
                 }
-                let tail = if f >= 2 { 7 } else { 0 };
+                // W=2: a last block a few samples short of the block size (72 vs 65: both long enough for
+                // prediction, same 16-sample class, different length), so that per-thread scratch and caches
+                // left by one frame matter to the next frame of the same worker; W=1: a much shorter one
+                // (below the prediction threshold)
+                let tail = if f >= 2 { if w == 2 { 65 } else { 7 } } else { 0 };
                 v.push(mk(&format!("cfg_w{w}_f{f}_{}", if byte { "bytes" } else { "ints" }), w, None, w, data(f), tail, byte, pb));
             }
         }
@@ -574,7 +587,7 @@ fn run_parent(prop: &str, tier: &str, seed: u64, report: Option<String>, replay:
                 }
                 per_scenario.insert(
                     o.sc.name.clone(),
-                    json!({"schedules": g("schedules"), "distinct_traces": g("distinct_traces"), "preemption_bound": o.sc.preemption_bound, "wall_s": o.result.get("wall_s"), "expected": o.result.get("expected")}),
+                    json!({"schedules": g("schedules"), "distinct_traces": g("distinct_traces"), "preemption_bound": o.sc.preemption_bound, "wall_s": o.result.get("wall_s"), "expected": o.result.get("expected"), "lpc_subframes": g("lpc_subframes"), "fixed_subframes": g("fixed_subframes")}),
                 );
                 if samples.len() < 2 {
                     if let Some(t) = o.result.get("sample_traces").and_then(Value::as_array).and_then(|a| a.first()) {
